@@ -71,6 +71,36 @@ def contracts(ctx, mon):
     return [RenderContract(ctx)]
 
 
+def render_extend_render(ctx, mon, rng):
+    """one object: rendered, then extended by `+=` / in-place replace / join with a piece whose setting is a
+    well-formed multi-code group (two effects in one setting) or a clear code, then rendered again - whatever a
+    rendering remembers about the value (what is parsable, what was optimised) must not survive the change"""
+    L = ctx.L
+    try:
+        with mon.quiet():
+            v = L.AnsiString(rng.choice(['ab', 'a', 'abc']), *rng.choice([['italic'], ['red'], [], ['bold', 'bg_blue']]))
+        probe_value(ctx, mon, v)
+        with mon.quiet():
+            same = rng.choice([['italic'], ['red'], []])
+            p1 = L.AnsiString('cd', *same, rng.choice(['[1;31', '[4;58;5;9', '[22;39', '[1;4', '[38;5;1;1']))
+            p2 = L.AnsiString('ef', *same)
+            k = rng.randrange(3)
+            if k == 0:
+                v += p1
+                v += p2
+            elif k == 1:
+                v += p2
+                v.replace('e', p1, inplace=True)
+            else:
+                v += p1
+                v += 'gh'
+                v.apply_formatting('underline', 1, 3)
+        ctx.sig('render-extend-render')
+        probe_value(ctx, mon, v)
+    except Exception:
+        ctx.aborted['render-extend-render-raised'] += 1
+
+
 def probe_value(ctx, mon, v):
     """render under all 8 flag combinations (the contract judges each call) and check
     str(v) == format(v, '') == to_str()"""
@@ -124,5 +154,6 @@ def drive(ctx, mon, tier, only_case=None):
         history(L, rng, ex, rng.randint(1, sz['nops']), sz['maxlen'], profile, WEIGHTS)
         for v in ansi_values(L, ex):
             probe_value(ctx, mon, v)
+        render_extend_render(ctx, mon, rng)
 
     run_cases(ctx, mon, CASES[tier], body, only_case=only_case)
